@@ -26,6 +26,7 @@ def main():
     tier = "quick"
     src = "/tmp/wt-%s/OUT" % pid
     demo_args = {}
+    prefix = ""
     i = 1
     while i < len(args):
         if args[i] == "--only":
@@ -40,6 +41,8 @@ def main():
         elif args[i] == "--demo-args":
             k, v = args[i + 1].split("=", 1)
             demo_args[k] = v
+        elif args[i] == "--prefix":
+            prefix = args[i + 1]
         elif args[i] == "--src":
             src = args[i + 1]
         i += 2
@@ -76,7 +79,7 @@ def main():
         for k, c in caught.items():
             print("    check %s (%s): exit %d  %s" % (k, tier, c["exit"], ", ".join("%s x%d" % (s["sig"], s["count"]) for s in c["signatures"])[:300]))
         if verified:
-            dst = os.path.join(VERIF, "seeded", "%s-%s" % (pid, name))
+            dst = os.path.join(VERIF, "seeded", "%s-%s%s" % (pid, prefix, name))
             os.makedirs(dst, exist_ok=True)
             shutil.copy(d + "patch.diff", dst)
             for f in glob.glob(d + "demo*.rs") + glob.glob(d + "README.md"):
@@ -88,7 +91,7 @@ def main():
                     break
             meta = {
                 "property": pid,
-                "origin": "written by an independent sub-agent that saw only the property text and a scratch worktree",
+                "origin": "written by an independent sub-agent that saw only the property text and a scratch worktree" + (" (second round: additionally told the general shape of the checks and asked for changes they could plausibly miss)" if prefix else ""),
                 "summary": first,
                 "needs_to_manifest": "see README.md (written by the sub-agent)",
                 "confirmed": {l.split(":")[0]: l.split(":", 1)[1].strip() for l in vlines if ":" in l and not l.startswith(("VERIFIED", "NOT-VERIFIED"))},
